@@ -79,6 +79,71 @@ func reqID(d string, t int) string {
 	return fmt.Sprintf("5e1fc06%d-0000-4000-8000-%012d", dagIndex(d), t)
 }
 
+// Request ids of the search ids/a (Search.IDs = "mixed"): the store puts only the first 8
+// characters of a request id into the file name, so the id alphabet of that search holds every
+// relation two ids of one DAG can have with respect to that cut: full-length ids sharing their
+// first 8 characters, a full-length id differing there, an id of exactly 8 characters (equal to
+// the file-name part of the long ones), and ids shorter than 8 characters that are prefixes of
+// each other and of all the former.  Again a function of (DAG, start time).
+var mixedIDs = map[int]string{
+	tT0:  "c%d6e1f50-0000-4000-8000-000000000000", // 36 characters
+	tT1:  "c%d6e",                                 // 4 characters: a prefix of every other id but the distinct one
+	tT2:  "d%d7d15c6-0000-4000-8000-000000000002", // 36 characters, distinct in the first 8
+	tT3:  "c%d6e1f50",                             // exactly the 8 characters the long ids share
+	tY:   "c%d6e1f50-0000-4000-8000-000000000004", // 36 characters, shares the first 8 (and 35) with the id of tT0
+	tOld: "c%d6e1f",                               // 6 characters
+}
+
+func (s *Search) id(d string, t int) string {
+	if s != nil && s.IDs == "mixed" {
+		if f, ok := mixedIDs[t]; ok {
+			return fmt.Sprintf(f, dagIndex(d))
+		}
+	}
+	return reqID(d, t)
+}
+
+// trunc8: the part of a request id the store puts into the file name.
+func trunc8(id string) string {
+	if len(id) > 8 {
+		return id[:8]
+	}
+	return id
+}
+
+// idRelation: how the id addressed by an operation relates to the other ids recorded under the
+// DAG (signature facet of the ids/* searches).
+func idRelation(id string, others []*Run) string {
+	share, isPrefix, extends := false, false, false
+	for _, r := range others {
+		if r.ID == id {
+			continue
+		}
+		switch {
+		case strings.HasPrefix(r.ID, id):
+			isPrefix = true
+		case strings.HasPrefix(id, r.ID):
+			extends = true
+		case trunc8(r.ID) == trunc8(id):
+			share = true
+		}
+	}
+	var p []string
+	if share {
+		p = append(p, "shares-first-8")
+	}
+	if isPrefix {
+		p = append(p, "is-prefix-of-another")
+	}
+	if extends {
+		p = append(p, "extends-another")
+	}
+	if len(p) == 0 {
+		return "unrelated"
+	}
+	return strings.Join(p, "+")
+}
+
 // Op is one operation of the alphabet (also the replay format).
 type Op struct {
 	K    string `json:"k"`              // run | open | write | close | update | rename | removeold | removeall
@@ -238,6 +303,7 @@ type Search struct {
 	MaxRuns int
 	MaxOpen int
 	Sizes   []string // payload size classes of the statuses recorded by run/open/write/update (nil = small only)
+	IDs     string   // request-id scheme: "" = reqID (one shared 8-character prefix per DAG), "mixed" = mixedIDs
 }
 
 func (s *Search) has(kind string) bool {
@@ -255,7 +321,7 @@ func (s *Search) universe() []Op {
 	var ids []string
 	for _, d := range s.Dags {
 		for _, t := range s.Times {
-			ids = append(ids, reqID(d, t))
+			ids = append(ids, s.id(d, t))
 		}
 	}
 	sizes := s.Sizes
@@ -266,7 +332,7 @@ func (s *Search) universe() []Op {
 		for _, sz := range sizes {
 			for _, t := range s.Times {
 				for _, d := range s.Dags {
-					u = append(u, Op{K: "run", D: d, T: times[t].Label, R: reqID(d, t), Size: sz})
+					u = append(u, Op{K: "run", D: d, T: times[t].Label, R: s.id(d, t), Size: sz})
 				}
 			}
 		}
@@ -275,7 +341,7 @@ func (s *Search) universe() []Op {
 		for _, sz := range sizes {
 			for _, t := range s.Times {
 				for _, d := range s.Dags {
-					u = append(u, Op{K: "open", D: d, T: times[t].Label, R: reqID(d, t), Size: sz})
+					u = append(u, Op{K: "open", D: d, T: times[t].Label, R: s.id(d, t), Size: sz})
 				}
 			}
 		}
